@@ -86,6 +86,9 @@ type DirTrace struct {
 	ReadBack     bool
 	violations   []string
 	OS           *OSHook
+	// OnPersistSegment is told the ids held by an in-memory segment that is
+	// about to be written out (delete-into-persist bias)
+	OnPersistSegment func(ids []string)
 }
 
 func NewDirTrace(s *Sim, path string) *DirTrace {
@@ -344,6 +347,26 @@ func (d *RecDir) Persist(kind string, id uint64, w index.WriterTo, closeCh chan 
 	}
 	if snap, ok := w.(*index.Snapshot); ok && kind == index.ItemKindSnapshot {
 		op.SnapInfo = snap.VerifSegmentInfos()
+	}
+	if g, ok := w.(*gseg); ok && kind == index.ItemKindSegment && d.t.OnPersistSegment != nil {
+		// an in-memory segment is being written out: between now and the
+		// persist swap, deletes that land on it must survive the swap
+		idset := map[string]bool{}
+		for num := uint64(0); num < g.Segment.Count(); num++ {
+			_ = g.Segment.VisitStoredFields(num, func(f string, v []byte) bool {
+				if f == "_id" {
+					idset[string(v)] = true
+					return false
+				}
+				return true
+			})
+		}
+		var ids []string
+		for id := range idset {
+			ids = append(ids, id)
+		}
+		sort.Strings(ids)
+		d.t.OnPersistSegment(ids)
 	}
 	err := d.inner.Persist(kind, id, &recWriterTo{inner: w, t: d.t, op: op, failAt: failAt}, closeCh)
 	d.t.disarmOS()
